@@ -96,3 +96,17 @@ extern "C" void h_c38_depth(unsigned long depth, unsigned long opener) {
     verif_assert(!a.ok, "C38: an unterminated nest is an error, not a success");
     verif_reach("deep");
 }
+// numeric literals of a given length (digits concrete, optional sign / fraction / exponent chosen symbolically): boundary lengths
+extern "C" void h_c38_number(unsigned long len) {
+    std::string num(len, '1');
+    const std::uint8_t form = nondet_u8("form"); verif_assume(form < 4);
+    const unsigned f = static_cast<unsigned>(verif_concretize(form, 4));
+    if (f == 1 && len >= 2) num[0] = '-';
+    if (f == 2 && len >= 3) num[len / 2] = '.';
+    if (f == 3 && len >= 3) num[len - 2] = 'e';
+    std::string doc = "{\"n\":" + num + ",\"version\":\"v\"" + kTail;
+    Metadata out; std::string err;
+    const bool ok = parse_update_metadata(doc, out, err);
+    if (ok) { verif_assert(out.version == "v", "C38: fields next to a long number are reported unchanged"); verif_reach("parsed"); }
+    else { verif_assert(!err.empty(), "C38: a failed parse reports an error message"); verif_reach("refused"); }
+}
